@@ -37,6 +37,8 @@ type Ptr struct {
 	idx  *Term
 	elem types.Type
 	fn   *ssa.Function // pointer to a function value is not supported; unused
+	sref *SliceV       // unsafe.SliceData provenance
+	strRef *StrV       // unsafe.StringData provenance
 }
 
 func (p *Ptr) IsNil() bool { return p.c == nil && p.base == nil }
